@@ -7,5 +7,8 @@ if ! git apply --check "$P" 2>/dev/null; then echo "PATCH DOES NOT APPLY: $P"; g
 git apply "$P"
 trap 'git -C /repo checkout -- . ' EXIT
 for id in "$@"; do
+  cp /verif/evidence/$id.json /var/tmp/evidence.$id.bak 2>/dev/null
   ( cd /verif && ./check $id quick 2>&1 | grep -E "^(VIOLATION|KNOWN-FINDING|property )" | cut -c1-400 )
+  # evidence committed to /verif must come from the unchanged tree: put the previous file back
+  [ -f /var/tmp/evidence.$id.bak ] && mv /var/tmp/evidence.$id.bak /verif/evidence/$id.json
 done
